@@ -1213,7 +1213,7 @@ def arith_ok(rb, f, bi, t):
             ok, why = rb.ge1(f, bi, a)
             if ok:
                 return True, "b1: minuend >= 1 (%s)" % why
-            if CONTRACTS.get(f.key, {}).get("n>=1") and _minus_lz_at_least(a) is not None and _minus_lz_at_least(a) >= 1:
+            if (CONTRACTS.get(f.key, {}).get("n>=1") or _lz_arg_ge1(a)) and _minus_lz_at_least(a) is not None and _minus_lz_at_least(a) >= 1:
                 return True, "log2_fast: x >= 1 => leading_zeros <= BITS-1 => BITS - lz >= 1"
             if rb.is_len(a) and f.is_closure and hit_continuation(rb.view, f):
                 return True, "b3: continuation of a successful keyed removal: the store held that entry, so size >= 1"
@@ -1230,10 +1230,12 @@ def arith_ok(rb, f, bi, t):
         sa, sb = strip(a), strip(b)
         if sa[0] == "field" and sb[0] == "field" and is_cursor(sa, "back") and is_cursor(sb, "front") and sa[3] == sb[3]:
             return True, "iterator invariant front cursor <= back cursor (maintained by the cursor discipline, R-CURSOR c2)"
-        if "leading_zeros" in term_str(b) and CONTRACTS.get(f.key, {}).get("n>=1"):
+        if "leading_zeros" in term_str(b) and (CONTRACTS.get(f.key, {}).get("n>=1") or _lz_arg_ge1(b)):
             k = _const_bits(a)
             if k is not None and k >= USIZE_BITS - 1:
                 return True, "log2_fast: x >= 1 => leading_zeros <= BITS-1 <= %d" % k
+        if "leading_zeros" in term_str(b) and _const_bits(a) is not None and _const_bits(a) >= USIZE_BITS and strip(b)[0] == "call":
+            return True, "leading_zeros(x) <= BITS <= %d for every x" % _const_bits(a)
         return False, "subtraction %s - %s without a dominating order fact" % (term_str(a)[:30], term_str(b)[:30])
     return False, "unrecognised checked operation " + op
 
@@ -1250,6 +1252,23 @@ def _const_bits(t):
     if t[0] == "const" and str(t[1]).endswith("::BITS") and "usize" in str(t[1]):
         return USIZE_BITS
     return None
+
+
+def _lz_arg_ge1(t):
+    """t contains exactly one `leading_zeros(x)` and x is `y + c` with a constant c >= 1 in overflow-checked arithmetic (so x >= 1):
+    the body of `log2_fast(i.0 + 1)` written out where it is used"""
+    calls = [x for x in walk(t) if x[0] == "call" and x[1].split("::")[-1] == "leading_zeros" and x[2]]
+    if len(calls) != 1:
+        return False
+    x = strip(calls[0][2][0])
+    if x[0] == "field" and x[2] in (0, "0"):
+        x = strip(x[1])
+    if x[0] == "binop" and x[1].startswith("Add"):
+        for side in (x[2], x[3]):
+            c = const_int(strip(side))
+            if c is not None and c >= 1:
+                return True
+    return False
 
 
 def _minus_lz_at_least(t):
